@@ -1450,6 +1450,24 @@ def m_opt_unwrap_or_else(eng, st, fr, fn, args, t):
     return out
 
 
+def m_opt_or_else(eng, st, fr, fn, args, t):
+    """Option::or_else(o, f): o when it is Some, otherwise what the closure yields; Option::or(o, other) likewise"""
+    out = []
+    if fn["name"] == "or":
+        for (s2, var, payload) in _fork_option(eng, st, args[0]):
+            out.append((s2, mk_some(payload) if var == "Some" else args[1]))
+        return out
+    body = eng.closure_body(args[1])
+    if body is None or eng.loops(body):
+        return None
+    for (s2, var, payload) in _fork_option(eng, st, args[0]):
+        if var == "Some":
+            out.append((s2, mk_some(payload)))
+            continue
+        out.extend(eng.run_sub(s2, body, [args[1]], fr.depth + 1))
+    return out
+
+
 def m_res_map(eng, st, fr, fn, args, t):
     """Result::map(r, f) with a closure literal: the closure is inlined on the Ok arm; an Err passes through"""
     body = eng.closure_body(args[1])
@@ -1861,6 +1879,8 @@ DEFAULT_MODELS = {
     "core::option::Option::<&T>::copied": m_opt_cloned,
     "core::option::Option::<T>::and_then": m_opt_and_then,
     "core::option::Option::<T>::unwrap_or_else": m_opt_unwrap_or_else,
+    "core::option::Option::<T>::or_else": m_opt_or_else,
+    "core::option::Option::<T>::or": m_opt_or_else,
     "core::option::Option::<T>::map_or": m_opt_map_or,
     "core::result::Result::<T, E>::unwrap_or_else": m_res_unwrap_or_else,
     "<alloc::vec::Vec<T, A> as core::iter::traits::collect::Extend<T>>::extend": m_vec_extend,
